@@ -293,6 +293,14 @@ class C15(Engine):
                     res.viol("%s:nonrepeatable:%s:%s" % (cpu, comp, how), a=a[4][0][-300:], b=b[4][0][-300:], rets=(a[3], b[3], a[5], b[5]), case=trim(case, 160))
                     break
 
+    def sample_view(self, plan):
+        from vlib.framework import trim
+        if "cases" in plan:
+            v = dict(plan)
+            v["cases"] = plan["cases"][:2] + ["... %d more cases" % max(len(plan["cases"]) - 2, 0)]
+            return trim(v, 120)
+        return trim(plan, 400)
+
     def shrink(self, plan):
         cases = plan["cases"]
         if len(cases) > 1:
